@@ -2,7 +2,8 @@ from checks import both, EX
 
 CHECK = {
     'level': 'exploration',
-    'rule': ('closure generator: every operation of the dlist alphabet (push_front/push_back, pop_front/pop_back incl. on '
+    'rule': ('[runs and re-entrancy] sort inputs with run structure (runs of decreasing/increasing/equal length, > 1024 runs, sawtooth, organ pipe; 820..32767 elements, thorough 200000) sorted ascending and descending through priv, in every second case the comparator sorts another list; foreach visitors call size/front/back(/find) and a nested foreach on the same and on another list; every second case runs with an allocator that refuses everything; '
+             'closure generator: every operation of the dlist alphabet (push_front/push_back, pop_front/pop_back incl. on '
              'empty, insert-after any member, erase any member, reverse, sort, concat, swap, find FWD/REV for every key '
              'value and one absent key, foreach FWD/REV plain / early stop at every index with a chosen non-zero value of '
              'either sign / visitor that erases+poisons+frees the visited element (one, all, erase-and-stop), clear with a '
